@@ -1,10 +1,10 @@
 SPECIFICATION Spec
 CONSTANTS
   CheckTrailer = TRUE
-  UpdateWatchdog = FALSE
-  WaitOrigins = FALSE
+  UpdateWatchdog = TRUE
+  WaitOrigins = TRUE
   Bound = 1
-  NOrigs = {0}
+  NOrigs = {0, 1}
   Intfs = {"keep"}
   Gen = FALSE
-INVARIANTS InvStallGivesUp
+INVARIANTS InvOriginsBestEffort
